@@ -488,3 +488,17 @@ package reader
 //@ func (*replicateChannelManager).StartReadCollection$6
 //@   props C01 C04 C02
 //@   requires deref(r) != nil && deref(info) != nil && deref(info).Schema != nil && deref(targetInfo) != nil && deref(barrier) != nil
+
+// ---- C02: a waiting handler that adopts a free channel leaves the placement of its collection alone ------------------
+// waitChannel$1 is the goroutine of a handler whose downstream channel was already taken: it waits for a channel that is
+// still free and adopts it.  Only the handler's own channel changes; the record of the collection it was created for -
+// the downstream physical and virtual channel, the collection id - stays what the downstream reported, so that packs
+// of that collection are still recognised as belonging elsewhere and forwarded.
+//@ func (*replicateChannelManager).waitChannel$1
+//@   props C02 C16
+//@   requires deref(r) != nil && deref(targetInfo) != nil && deref(sourceInfo) != nil && deref(channelHandler) != nil && deref(r).channelMapping != nil && deref(r).channelForwardMap != nil
+//@   assumes shapeCM(deref(r).channelMapping) && balancedCM(deref(r).channelMapping)
+//@   trustpre AddKeyValue
+//@   private model.TargetCollectionInfo.PChannel model.TargetCollectionInfo.VChannel model.TargetCollectionInfo.CollectionID cells(*model.TargetCollectionInfo) cells(*replicateChannelManager) util.ChannelMapping.* replicateChannelManager.channelMapping
+//@   ensures [the-collections-placement-is-left-as-the-downstream-reported-it] deref(targetInfo).PChannel == old(deref(targetInfo).PChannel) && deref(targetInfo).VChannel == old(deref(targetInfo).VChannel) && deref(targetInfo).CollectionID == old(deref(targetInfo).CollectionID)
+//@   loop 1 invariant deref(targetInfo) == old(deref(targetInfo)) && deref(targetInfo).PChannel == old(deref(targetInfo).PChannel) && deref(targetInfo).VChannel == old(deref(targetInfo).VChannel) && deref(targetInfo).CollectionID == old(deref(targetInfo).CollectionID) && deref(r) == old(deref(r)) && deref(r).channelMapping == old(deref(r).channelMapping) && shapeCM(deref(r).channelMapping) && balancedCM(deref(r).channelMapping)
